@@ -170,8 +170,7 @@ theorem encode_reads_like_data_al (v : Ver) (T : OpTable) (blocks : List (List I
     (htable : LT.fromLineMapping v.is310 (finalLineMap out addLine fln) = .ok table)
     (argc pos kw nl ss fl : Nat) (fname name : PStr)
     (hkind : ∀ ins ∈ blocks.flatten, KindOK T ins) (hopb : ∀ ins ∈ blocks.flatten, ins.op < 256)
-    (henc : ∀ args0 args fuel, relax v blocks.flatten (blockStarts blocks 0) fuel args0 = .ok args →
-      ∀ p ∈ blocks.flatten.zip args, Encodable p.1 p.2)
+    (henc : ∀ args, finalArgs v blocks addArgs fv tp = .ok args → ∀ p ∈ blocks.flatten.zip args, Encodable p.1 p.2)
     (hst : ∀ s ∈ blockStarts blocks 0, s < blocks.flatten.length) (hne : blocks.flatten ≠ [])
     (hlines : v.is310 = false → ∀ ins ∈ blocks.flatten, ins.line.isSome)
     (hal : v.is310 = false → ∀ a, addLine = some a → a.line.isSome) :
@@ -180,8 +179,8 @@ theorem encode_reads_like_data_al (v : Ver) (T : OpTable) (blocks : List (List I
     ∀ (j : Nat) (ins : Instr) (s : Spec.SInstr), blocks.flatten[j]? = some ins →
       (Spec.read v T (.mk argc pos kw nl ss fl fln out.code table fname name out.names out.varnames fv out.cellvars consts'))[j]? = some s →
       s.op = ins.op ∧ s.line = ins.line ∧ ArgSays (blockStarts blocks 0) out.consts ins.arg s.arg := by
-  obtain ⟨args0, args, fuel, hal0, hrelax, hcode, hlm, hlen, hops, hfree, hraw⟩ := blocksToBytes_spec v blocks addArgs fv tp out h
-  have hencA := henc args0 args fuel hrelax
+  obtain ⟨args0, args, fuel, hal0, hrelax, hcode, hlm, hlen, hops, hfree, hraw, hfinal⟩ := blocksToBytes_spec' v blocks addArgs fv tp out h
+  have hencA := henc args hfinal
   have hl' : blocks.flatten.length = args.length := hlen.symm
   rw [read_eq, hcode, read_emit blocks.flatten args hl' hencA hopb]
   -- offsets CPython sees
